@@ -3,7 +3,9 @@
     CursorPosition, updateDataOffset (the uint32 arithmetic of the buffer offset, widened to uint),
     SetCursorPosition (clamping, parallel assignment, recomputation of the offset) and cr.
     The methods with loops and console calls (AttachTo, SetState, Write, WriteByte, doWrite, lf) are
-    outside the translator's subset and stay tied by differential testing and source pins. *)
+    outside the subset of this (first) mode of the translator; they are tied by the extended mode in
+    Tty/VtFullTrans.v (Gen/Trans_tty_vt_full.v), which also re-proves the five methods below for the
+    record with the console trace. *)
 From Coq Require Import NArith Lia List Bool.
 From FF Require Import Lib.Word Lib.GoOps Gen.Trans_tty_vt Gen.Consts_device_tty Tty.Vt.
 Local Open Scope N_scope.
